@@ -1,5 +1,6 @@
 import SSV.Proofs.SWFRun
 import SSV.Proofs.UdpSession
+import SSV.Proofs.UdpClient
 /-
 C04 — Authenticated UDP packets are delivered at most once; fresh ones never refused.
 Property theorems only (helper lemmas: SSV/Proofs/SWF*.lean, SSV/Proofs/UdpSession.lean).
@@ -186,6 +187,69 @@ example : serverRun (serverInit 4)
      (0, { long := true, sid := 0, pid := 7, authentic := true, hdr := true, typ := 0, ts := 0, csid := 0, rest := true })]
     = [.ok, .replay] := by decide
 
+/-! ### the client unpacker: current / old / dropped server sessions -/
+
+/-- **client_at_most_once** (first half of `client_sessions`). For every filter size in range, on every
+history with a clock that never goes back (any mix of genuine, replayed, reordered, forged, stale,
+foreign packets; any number of server sessions coming, going and coming back), no packet is delivered
+twice: the (server session id, packet id, timestamp) triples of the delivered packets are pairwise
+distinct — whether the packet's session is still current, is the old one, or was dropped in the
+meantime (then the one-minute rule plus the timestamp check reject the replay).
+Sanity hypotheses `EvOk`: header timestamps are `int64` values and the clock is below 2^62 s (so that
+`tsEpoch - nowEpoch` does not wrap). An honest server uses each (session id, packet id) once, so a
+replay is a packet with the same triple. -/
+theorem client_at_most_once (n csid : Nat) (h : SizeOk n) (evs : List Event)
+    (hm : MonoFrom 0 evs) (hr : ∀ e ∈ evs, EvOk e) :
+    (clientOkKeys (clientInit n csid) evs).Nodup :=
+  (client_run_nodup (st := clientInit n csid) h.1 h.2 (clientInit_inv n csid) evs hm hr).1
+
+example : ∃ evs : List Event, MonoFrom 0 evs ∧ (∀ e ∈ evs, EvOk e) ∧ clientRun (clientInit 4 9) evs = [.ok, .replay, .ok, .tooManySessions] :=
+  ⟨[(1000000000, { long := true, sid := 5, pid := 7, authentic := true, hdr := true, typ := 1, ts := 1, csid := 9, rest := true }),
+    (2000000000, { long := true, sid := 5, pid := 7, authentic := true, hdr := true, typ := 1, ts := 1, csid := 9, rest := true }),
+    (2000000000, { long := true, sid := 5, pid := 8, authentic := true, hdr := true, typ := 1, ts := 1, csid := 9, rest := true }),
+    (3000000000, { long := true, sid := 6, pid := 0, authentic := true, hdr := true, typ := 1, ts := 3, csid := 9, rest := true })],
+   by simp [MonoFrom], by simp [EvOk], by decide⟩
+
+/-- **client_fresh_never_refused.** After every history `pre` on a monotone clock, a long-enough authentic
+packet whose header validates now and whose server session is the current one (resp. the old one) is
+delivered whenever its packet id is fresh w.r.t. the ids delivered in the present life of that session
+(`ghostAfter` files every delivered packet under current / old / dropped exactly as the sessions move). -/
+theorem client_fresh_never_refused (n csid : Nat) (h : SizeOk n) (pre : List Event)
+    (hm : MonoFrom 0 pre) (hr : ∀ e ∈ pre, EvOk e) (t : Nat) (p : Packet)
+    (hl : p.long = true) (ha : p.authentic = true) (hp : parseServerHeader t csid p = none) :
+    let st := clientAfter (clientInit n csid) pre
+    let g := ghostAfter (clientInit n csid) { cur := [], old := [], dropped := [] } pre
+    (isCur st p.sid = true → Fresh n (g.cur.map (·.pid)) p.pid → (clientStep st t p).2 = .ok) ∧
+    (isCur st p.sid = false → isOld st p.sid = true → Fresh n (g.old.map (·.pid)) p.pid → (clientStep st t p).2 = .ok) := by
+  intro st g
+  obtain ⟨⟨T', hinv⟩, hfs, hcs⟩ := client_run_inv (st := clientInit n csid) h.1 h.2 (clientInit_inv n csid) pre hm hr
+  have hfs' : st.filterSize = n := hfs
+  have hcs' : st.csid = csid := hcs
+  have := client_fresh_accepted hinv t p hl ha (by rw [hcs']; exact hp)
+  rw [hfs'] at this
+  refine ⟨fun a b => ?_, fun a b c => ?_⟩
+  · rw [clientStep_res]; exact this.1 a b
+  · rw [clientStep_res]; exact this.2 a b c
+
+example :
+    let pre : List Event := [(1000000000, { long := true, sid := 5, pid := 7, authentic := true, hdr := true, typ := 1, ts := 1, csid := 9, rest := true })]
+    isCur (clientAfter (clientInit 4 9) pre) 5 = true ∧
+    Fresh 4 ((ghostAfter (clientInit 4 9) { cur := [], old := [], dropped := [] } pre).cur.map (·.pid)) 8 := by
+  decide
+
+/-- **client_change_rate** (second half of `client_sessions`). On a clock that never goes back, any two
+deliveries that change the current server session (accept a packet of a session that is neither the
+current nor the old one) are at least `clientSessionChangeMinInterval` = one minute apart; the first
+session a client ever sees counts as a change. -/
+theorem client_change_rate (st : ClientState) (T : Nat) (evs : List Event) (hm : MonoFrom T evs) :
+    (clientChanges st evs).Pairwise (fun a b => a + SSV.Gen.C04.clientSessionChangeMinInterval ≤ b) :=
+  client_changes_pairwise evs hm
+
+example : clientChanges (clientInit 4 9)
+    [(1000000000, { long := true, sid := 5, pid := 7, authentic := true, hdr := true, typ := 1, ts := 1, csid := 9, rest := true }),
+     (61000000000, { long := true, sid := 6, pid := 0, authentic := true, hdr := true, typ := 1, ts := 61, csid := 9, rest := true })]
+    = [1000000000, 61000000000] := by decide
+
 end SSV.C04
 
 #print axioms SSV.C04.gen_swfBlockBits
@@ -203,3 +267,6 @@ end SSV.C04
 #print axioms SSV.C04.junk_interleaving
 #print axioms SSV.C04.server_unpack_refines
 #print axioms SSV.C04.server_at_most_once
+#print axioms SSV.C04.client_at_most_once
+#print axioms SSV.C04.client_change_rate
+#print axioms SSV.C04.client_fresh_never_refused
